@@ -14,7 +14,7 @@ DEFAULT = dict(
     w_connect=6, w_claim=8, w_allocate=4, w_release=5, w_open=8, w_add=10, w_close=7, w_list=3, w_ping=1,
     w_malformed=3, w_drop=4, w_sweep=2, w_restart=1, w_crash=0, w_fault=0, w_reconnect=4, w_bigjump=1,
     usage=None, blur=None, allow_list=None, int_ids=False, moods=["happy", "lonely", "errory", "scary", "weird", None, "Happy", "SCARY", "lonely ", ""],
-    p_badcv=0.0, p_near_ids=0.0, odd_scalars=False, extra_keys=True, quiesce=False, timer=False, welcome=False, start=8000, period=2400, expiration=5280, p_fault=0.0,
+    p_badcv=0.0, p_near_ids=0.0, odd_scalars=False, twins=False, backstep=False, big_ints=False, extra_keys=True, quiesce=False, timer=False, welcome=False, start=8000, period=2400, expiration=5280, p_fault=0.0,
 )
 
 
@@ -44,6 +44,10 @@ class Gen(object):
 
     def tick(self):
         r = self.r
+        if self.p["backstep"] and r.random() < 0.12:
+            # the wall clock is stepped back (NTP): outside the model's well-formedness, implementation + oracle only
+            self.t = max(self.p["start"] if isinstance(self.p["start"], int) else 0, self.t - r.choice([1, 2, 3, 5, 8, 16, 40]))
+            return self.t
         if r.random() < 0.6:
             self.t += r.choice([0, 1, 1, 2, 3, 8, 8, 16, 40])
         elif self.p["w_bigjump"] and r.random() < 0.15:
@@ -148,6 +152,13 @@ class Gen(object):
         s["allocated"] = True
         self.known_mb.setdefault(s["app"], []).append(f)
 
+    def twin_of(self, held, pool):
+        """an identifier of `pool` that is not `held` but looks like it (same after case folding + NFKC + stripping)"""
+        import unicodedata
+        norm = lambda x: unicodedata.normalize("NFKC", x).casefold().strip()
+        tw = [x for x in pool if x != held and norm(x) == norm(held)]
+        return self.r.choice(tw) if tw else None
+
     def do_release(self):
         c = self.pick_conn(lambda s: s["app"] is not None and (not s["released"] or self.r.random() < 0.1))
         if c is None:
@@ -157,6 +168,8 @@ class Gen(object):
         q = self.r.random()
         if s["np"] is None or q < 0.4:
             msg["nameplate"] = s["np"] if (s["np"] is not None and q < 0.9) else self.r.choice(self.p["names"])
+            if self.p["twins"] and s["np"] is not None and self.r.random() < 0.35:
+                msg["nameplate"] = self.twin_of(s["np"], self.p["names"]) or msg["nameplate"]
         self.recv(c, msg)
         s["released"] = True
 
@@ -178,6 +191,10 @@ class Gen(object):
         if self.p["int_ids"] and self.r.random() < 0.3:
             ph = self.r.randrange(5)
         msg = {"type": "add", "phase": ph, "body": "%02x" % self.r.randrange(256) * self.r.randrange(1, 4)}
+        if self.p["big_ints"] and self.r.random() < 0.3:
+            # JSON integers at and beyond the edge of a signed 64-bit integer
+            big = [2 ** 63, -2 ** 63 - 1, 2 ** 64 - 1, 2 ** 63 - 1, -2 ** 63, 10 ** 30]
+            msg[self.r.choice(["id", "phase", "body"])] = self.r.choice(big)
         if self.p["odd_scalars"]:
             # strings that LOOK like something else: numbers, hex in either case, JSON, SQL wildcards, the empty string
             odd = ["1", "007", "-3", " 42 ", "1_0", "\u0663", "1e3", "0x10", "true", "null", "", "DEADBEEF", "0aF3", "deadbeef", "00",
@@ -203,6 +220,8 @@ class Gen(object):
         if s["mailbox"] is None or q < 0.4:
             pool = self.mailbox_pool(s["app"])
             msg["mailbox"] = s["mailbox"] if (s["mailbox"] is not None and q < 0.9) else self.r.choice(pool)
+            if self.p["twins"] and s["mailbox"] is not None and self.r.random() < 0.35:
+                msg["mailbox"] = self.twin_of(s["mailbox"], pool) or msg["mailbox"]
         m = self.r.choice(self.p["moods"] + ["absent"])
         if m != "absent":
             msg["mood"] = m
